@@ -333,6 +333,24 @@ theorem eof_without_end_of_results_is_missing (pt : Part) (k : Nat) (h : pt.outc
     pt.finalErr ≠ some none := by
   simp [Part.finalErr, h]
 
+/-- and a remote handler whose end-of-results message CARRIES the follower's query error (what
+    rpc_client.go ProcessRemoteQuery sends when the query fails after its field list): the
+    end-of-results message was received, yet it is not "a clean final result" — the partition
+    falls under `cluster_success_needs_end_of_results` like an error before the end -/
+theorem error_on_end_of_results_is_missing (pt : Part) (k : Nat) (h : pt.outcome = .endErrorAfter k) :
+    pt.finalErr ≠ some none ∧ pt.finalErr = (Part.mk pt.rows (.failAfter k)).finalErr ∧
+      pt.script = (Part.mk pt.rows (.failAfter k)).script := by
+  simp [Part.finalErr, Part.script, h]
+
+/-- concretely: all rows of partition 1 arrived, its end-of-results message carries an error:
+    listed as missing, 1 of 2 successful -/
+theorem error_on_end_of_results_witness :
+    let pr (p k : Nat) : Row := { key := k, ts := 0, vals := [1], part := p }
+    let cl : Cluster := { parts := [⟨[pr 0 1], .ok⟩, ⟨[pr 1 3, pr 1 4], .endErrorAfter 2⟩],
+                          events := [.msg 0 false, .msg 1 false, .msg 1 false, .msg 0 false, .msg 1 false], unflat := false }
+    let o := embedded ⟨Cfg.fixed, none⟩ (.cluster cl) .none (fun _ => 0) 0
+    o.rows = [pr 0 1, pr 1 3, pr 1 4] ∧ o.err = none ∧ o.stats = some ⟨2, 1, [1]⟩ ∧ o.told = true := by decide
+
 /-- a stale handler (stream ended before its first message) is passed over: the partition is
     served by the next handler in its queue, or is a partition without handler -/
 theorem stale_handler_is_retried (rest : List Attempt) :
